@@ -7,6 +7,81 @@ from common import build, log, rundir, tlc, require_ok, tlc_counterexample
 LEVEL = "model_checking"
 
 
+def neighbours(chk, th, seed, n):
+    import random
+    import gen
+    import parse
+    from common import parallel_th
+    r = random.Random(seed)
+    lists, base = [], []
+    banned = {"while", "goto", "if", "then"}
+    for i in range(n):
+        p = gen.gen_canon(seed * 131 + i, nfiles=0, diverge=0.0, gotos=False, whiles=False, profile=r.choice(["loops", "calls"]))
+        toks = parse.tokenize(p["files"]["m"])
+        if any(t["k"] in banned for t in toks):
+            continue
+        names = sorted({t["t"] for t in toks if t["k"] == "id"}) + ["nosuch"]
+        heads = [j for j, t in enumerate(toks) if t["k"] == "loop"]
+        calls = [j for j, t in enumerate(toks) if t["k"] == "run"]
+        for _ in range(10):
+            m = [dict(t) for t in toks]
+            q = r.random()
+            if q < 0.45 and heads:
+                j = r.choice(heads)          # LOOP id DO: something between the bound and DO, or another bound
+                ins = r.choice([[{"k": "neq0", "t": "neq0"}], [{"k": "eq", "t": "eq"}, {"k": "int", "t": "0"}], [{"k": "int", "t": "1"}],
+                                [{"k": "id", "t": r.choice(names)}], [{"k": "plus", "t": "plus"}, {"k": "int", "t": "1"}]])
+                if r.random() < 0.8:
+                    m[j + 2:j + 2] = ins
+                else:
+                    m[j + 1:j + 2] = ins
+            elif q < 0.8 and calls:
+                j = r.choice(calls)          # RUN name WITH: another name (also the enclosing one, a later one, an unknown one), or no arguments
+                if r.random() < 0.7:
+                    m[j + 1] = {"k": "id", "t": r.choice(names)}
+                else:
+                    k = j + 3
+                    while k < len(m) and m[k]["k"] != "end":
+                        k += 1
+                    del m[j + 3:k]
+            else:
+                for _ in range(r.randint(1, 2)):
+                    pos = r.randrange(len(m))
+                    w = r.random()
+                    if w < 0.4:
+                        del m[pos]
+                    elif w < 0.7:
+                        m.insert(pos, dict(r.choice(toks)))
+                    elif len(m) > 1:
+                        a = r.randrange(len(m) - 1)
+                        m[a], m[a + 1] = m[a + 1], m[a]
+            if m and not any(t["k"] in banned for t in m):
+                lists.append(m)
+                base.append(len(toks))
+    verdict = parse.decide(chk, lists, name="neigh")
+    jobs = [{"i": i, "files": {"m": " ".join(parse.untoken(t, r) for t in m) + "\n"}, "main": "m", "budget": 300000, "every": False, "prog": False}
+            for i, m in enumerate(lists)]
+    ran = 0
+    for recs, rc, err, part in parallel_th(th, ["steptrace"], jobs, timeout=1500):
+        if rc != 0:
+            chk.violation("c16:neigh:abort", "compile/run of a neighbour of a loop-only source aborted (exit %s): %s" % (rc, err[-1500:]),
+                          {"stderr": err[-3000:]})
+        for x in recs:
+            if "i" not in x or not x.get("ok"):
+                continue
+            ran += 1
+            i = x["i"]
+            ndefs = sum(1 for t in lists[i] if t["k"] == "prog")
+            src = jobs[i]["files"]["m"]
+            if x["maxdepth"] > ndefs + 1:
+                chk.violation("c16:neigh:depth:%s" % src[:200], "accepted source %r: activation stack reached depth %d with %d program definitions"
+                              % (src, x["maxdepth"], ndefs), {"files": jobs[i]["files"], "main": "m"})
+            elif not x["finished"] and not verdict[i]["acc"]:
+                chk.violation("c16:neigh:nohalt:%s" % src[:200], "accepted source %r contains neither WHILE nor GOTO (and is not a program of the "
+                              "language according to TheoParse) but did not halt within %d VM steps" % (src, jobs[i]["budget"]),
+                              {"files": jobs[i]["files"], "main": "m"})
+    return ran
+
+
 def run(chk):
     th = build("plain")
     n = 1500 if chk.thorough else 260
@@ -17,6 +92,9 @@ def run(chk):
     mixed = sem.generate(chk.seed + 18, n // 2, canon=True, profile="calls")
     # ... also in arbitrary layouts (nested loops sharing a line, loops produced by macro bodies)
     loop_only += sem.generate(chk.seed + 19, n, canon=False, gotos=False, whiles=False, diverge=0.0, profile="loops")
+    # ... with nested uses of macros whose bodies contain LOOPs (hidden counters of nested expansions, library in another file)
+    loop_only += sem.generate(chk.seed + 20, n // 2, canon=False, gotos=False, whiles=False, diverge=0.0, profile="macroheavy")
+    loop_only += sem.generate(chk.seed + 22, n // 2, canon=False, gotos=False, whiles=False, diverge=0.0, profile="repeats")
     for p in loop_only[::2]:
         p["canon"] = False       # every second one: only the end is logged, with the large instruction budget
     progs = loop_only + mixed
@@ -52,6 +130,11 @@ def run(chk):
     nref = parse.replay_verdicts(chk, th, cases, "c16:refs", chk.seed, split=True)
     chk.cov["reference_skeletons"] = nref
     chk.cov["reference_skeletons_rejected_by_spec"] = sum(1 for c in cases if not c["acc"] and not c["dup"])
+    # 4. neighbours of WHILE/GOTO-free sources (loop heads and call sites mutated; no WHILE, GOTO or IF token anywhere): whatever the
+    #    compiler accepts among them must keep the stack bound, and an accepted source that TheoParse does not even recognise as a
+    #    program must not run on beyond any bound the original had
+    nn = neighbours(chk, th, chk.seed + 21, 400 if chk.thorough else 80)
+    chk.cov["loop_only_neighbours_run"] = nn
     acc, nev = sem.validate(chk, progs)
     chk.cov["traces_validated_against_impl"] = acc
     chk.cov["trace_events"] = nev
